@@ -601,6 +601,12 @@ pub struct Driver {
     pub id_style: u8,
     /// index of a set of protocol-irrelevant request headers added to every request (0 = none)
     pub extra_headers: u8,
+    /// reads are *revalidated*: after a read that returned a version id, the same read is made
+    /// again with If-None-Match (and, every other time, If-Modified-Since) naming that id, as a
+    /// caching client library would; the second answer is the one that counts - the protocol has
+    /// no conditional reads, so it must be the same answer
+    pub revalidate: bool,
+    pub reval_seq: u32,
     /// in-process uploads arrive in two halves with this many seconds of (virtual) time between them
     pub stall_secs: u32,
     /// appended to the Content-Type of uploads (e.g. "; charset=utf-8"): parameters do not change
@@ -655,6 +661,8 @@ impl Driver {
             http: None,
             id_style: 0,
             extra_headers: 0,
+            revalidate: false,
+            reval_seq: 0,
             stall_secs: 0,
             ct_params: None,
             content_length: false,
@@ -793,6 +801,25 @@ impl Driver {
         resp
     }
 
+    fn revalidated(&mut self, mut again: HttpReq, first: HttpResp) -> HttpResp {
+        if !self.revalidate || first.status != 200 {
+            return first;
+        }
+        let Some(id) = first.header_str("X-Version-Id") else { return first };
+        self.reval_seq = self.reval_seq.wrapping_add(1);
+        let tag = match self.reval_seq % 4 {
+            0 => format!("\"{id}\""),
+            1 => format!("W/\"{id}\""),
+            2 => format!("\"other\", \"{id}\""),
+            _ => id.clone(),
+        };
+        again.headers.push(("If-None-Match".into(), tag.into_bytes()));
+        if self.reval_seq % 2 == 0 {
+            again.headers.push(("If-Modified-Since".into(), b"Fri, 01 Jan 2100 00:00:00 GMT".to_vec()));
+        }
+        self.http_call(again)
+    }
+
     /// Protocol-level AddVersion: includes the documented creation of an unknown client.
     pub fn add_version(&mut self, c: Uuid, parent: Uuid, data: &[u8]) -> Outcome {
         match self.via {
@@ -854,6 +881,7 @@ impl Driver {
             },
             Via::Http => {
                 let r = self.http_call(req_get_child(c, parent));
+                let r = self.revalidated(req_get_child(c, parent), r);
                 decode(Endpoint::GetChild, &r)
             }
         }
@@ -892,6 +920,7 @@ impl Driver {
             },
             Via::Http => {
                 let r = self.http_call(req_get_snapshot(c));
+                let r = self.revalidated(req_get_snapshot(c), r);
                 decode(Endpoint::GetSnapshot, &r)
             }
         }
